@@ -14,11 +14,11 @@ import (
 
 // Cfg mirrors the model's [cfg].
 type Cfg struct {
-	ProtoTime, ProtoArrays, WithNull, WithJSON, WithBQ bool
+	ProtoTime, ProtoArrays, WithNull, WithJSON, WithBQ, WithCustom bool
 }
 
 func (c Cfg) Coq() string {
-	return fmt.Sprintf("(mkcfg %v %v %v %v %v)", c.ProtoTime, c.ProtoArrays, c.WithNull, c.WithJSON, c.WithBQ)
+	return fmt.Sprintf("(mkcfg %v %v %v %v %v %v)", c.ProtoTime, c.ProtoArrays, c.WithNull, c.WithJSON, c.WithBQ, c.WithCustom)
 }
 
 func (c Cfg) String() string {
@@ -38,6 +38,9 @@ func (c Cfg) String() string {
 	if c.WithBQ {
 		s = append(s, "bq")
 	}
+	if c.WithCustom {
+		s = append(s, "custom")
+	}
 	if len(s) == 0 {
 		return "default"
 	}
@@ -56,6 +59,12 @@ func newInstance(c Cfg) *plenc.Plenc {
 	if c.WithJSON {
 		p.RegisterCodec(tJSONMap, plenccodec.JSONMapCodec{})
 		p.RegisterCodec(tJSONArr, plenccodec.JSONArrayCodec{})
+	}
+	if c.WithCustom {
+		// the model's custom_regs: int64 flat (overriding the default), tag "zz" for string and int32
+		p.RegisterCodec(reflect.TypeOf(int64(0)), plenccodec.FlatIntCodec[uint64]{})
+		p.RegisterCodecWithTag(reflect.TypeOf(""), "zz", plenccodec.StringCodec{})
+		p.RegisterCodecWithTag(reflect.TypeOf(int32(0)), "zz", plenccodec.IntCodec[int32]{})
 	}
 	if c.WithBQ {
 		p.RegisterCodecWithTag(tTime, "bq", plenccodec.BQTimestampCodec{})
